@@ -74,14 +74,14 @@ ModelStep(kk) ==
                   S1 == DispatchEv(S0(kk), e)
                   S2 == IF S1.k.run # 0 /\ S1.k.call[S1.k.run].op # "none" /\ e.kind # "start"
                           THEN Continue(S1, S1.k.run, S1.k.sigin[S1.k.run]) ELSE S1
-              IN [k |-> S2.k, ev |-> S2.ev, done |-> FALSE]
+              IN [k |-> NormH(S2.k), ev |-> S2.ev, done |-> FALSE]
     ELSE LET p == kk.run IN
          IF kk.pc[p] >= Len(code[p])
-           THEN LET S == ReturnFromBody(S0(kk), p) IN [k |-> S.k, ev |-> S.ev, done |-> FALSE]
+           THEN LET S == ReturnFromBody(S0(kk), p) IN [k |-> NormH(S.k), ev |-> S.ev, done |-> FALSE]
            ELSE LET in == InstrOf(code[p][kk.pc[p] + 1])
                     kpc == [kk EXCEPT !.pc[p] = @ + 1]
                     S == IF Legal(kk, p, in) THEN Exec1(S0(kpc), p, in) ELSE S0(kpc)
-                IN [k |-> S.k, ev |-> S.ev, done |-> FALSE]
+                IN [k |-> NormH(S.k), ev |-> S.ev, done |-> FALSE]
 
 CInit ==
   /\ l = 1 /\ exp = <<>> /\ code = <<>> /\ ok = FALSE
